@@ -61,6 +61,9 @@ import (
 //   c15 cpause <c> / cresume <c>   the raw client stops / resumes reading from its socket
 //   c15 cpingraw <c>          websocket ping of a raw client
 //   c15 emitbig <c> <k> <v> <kb>   like emit, the message padded to <kb> KiB
+//   c15 emitempty <c>              the service emits, on channel 0, a message whose encoding is EMPTY (every field
+//                                  optional and unset: zero bytes on the wire); a client decodes it as the zero value
+//                                  (channel 0, value 0) — a message of the stream like any other
 //   c15 emitbad <c> <k>       the service sends a value on channel k that protobuf.Encode refuses
 //   c15 creadopt <c> <ms>     clients m... (onet's client, no routine reads for them): one read with its own
 //                             options — ReadMessageWithOpts with a deadline <ms> ahead, or ReadMessage if 0
@@ -112,6 +115,8 @@ type C15Val struct {
 	Pad []byte
 	// Refuse: this value cannot be encoded (op emitbad)
 	Refuse bool
+	// Empty: this value's encoding has no bytes (op emitempty)
+	Empty bool
 }
 
 type c15valPlain C15Val
@@ -121,6 +126,9 @@ type c15valPlain C15Val
 func (v *C15Val) MarshalBinary() ([]byte, error) {
 	if v.Refuse {
 		return nil, errors.New("c15: a value that cannot be encoded")
+	}
+	if v.Empty {
+		return nil, nil
 	}
 	p := c15valPlain(*v)
 	return protobuf.Encode(&p)
@@ -567,9 +575,13 @@ func (e *c15env) do(tk []string) string {
 			c15cond.Wait()
 		}
 		return "ok"
-	case (len(tk) == 5 && tk[1] == "emit") || (len(tk) == 6 && tk[1] == "emitbig") || (len(tk) == 4 && tk[1] == "emitbad"):
+	case (len(tk) == 5 && tk[1] == "emit") || (len(tk) == 6 && tk[1] == "emitbig") || (len(tk) == 4 && tk[1] == "emitbad") ||
+		(len(tk) == 3 && tk[1] == "emitempty"):
 		if tk[1] == "emitbad" {
 			tk = append(append([]string{}, tk...), "0")
+		}
+		if tk[1] == "emitempty" {
+			tk = append(append([]string{}, tk...), "0", "0")
 		}
 		k, err1 := strconv.Atoi(tk[3])
 		v, err2 := strconv.Atoi(tk[4])
@@ -599,7 +611,7 @@ func (e *c15env) do(tk []string) string {
 			ch := st.ch
 			c15mu.Unlock()
 			select {
-			case ch <- &C15Val{Conn: string(c15tag(tk[2])), K: int64(k), V: int64(v), Pad: pad, Refuse: tk[1] == "emitbad"}:
+			case ch <- &C15Val{Conn: string(c15tag(tk[2])), K: int64(k), V: int64(v), Pad: pad, Refuse: tk[1] == "emitbad", Empty: tk[1] == "emitempty"}:
 			case <-time.After(c15wait):
 				r = "timeout"
 			}
@@ -1072,6 +1084,9 @@ func c15oracle(cs *h.Case) {
 		if tk[1] == "emitbig" {
 			tk = append([]string{}, tk[:5]...)
 			tk[1] = "emit"
+		}
+		if tk[1] == "emitempty" {
+			tk = []string{tk[0], "emit", tk[2], "0", "0"}
 		}
 		if tk[1] == "creadopt" {
 			tk = []string{tk[0], "cread", tk[2]}
@@ -1593,6 +1608,20 @@ func (g *c15g) drain(c string, n int, two bool) []string {
 	return append(ops, "c15 cdrain "+c, "c15 wstop "+c+" 0")
 }
 
+// a message whose encoding is empty (zero bytes on the wire) is a message of the stream like any other: it
+// reaches the client, in its place, and the stream goes on (seed C15r7-B took it for the end of the stream)
+func (g *c15g) emptyMessage(c string, before, after int) []string {
+	ops := []string{"c15 open " + c + " fresh", "c15 wstart " + c + " 0"}
+	for i := 0; i < before; i++ {
+		ops = append(ops, fmt.Sprintf("c15 emit %s 0 %d", c, g.v()), "c15 cread "+c)
+	}
+	ops = append(ops, "c15 emitempty "+c, "c15 cread "+c)
+	for i := 0; i < after; i++ {
+		ops = append(ops, fmt.Sprintf("c15 emit %s 0 %d", c, g.v()), "c15 cread "+c)
+	}
+	return append(ops, "c15 svcclose "+c+" 0", "c15 cread "+c, "c15 wstop "+c+" 0")
+}
+
 // the <ms> of `creadopt` that stands for StreamingConn.ReadMessage (deadline: five minutes from now)
 const c15readMessageMs = 300000
 
@@ -1732,6 +1761,8 @@ func c15genCases(c *h.Ctx, yield func(*h.Case)) {
 	emit("corpus:ping-while-writing", g.pingWhileWriting("b0", 5, 3072))
 	// seed C15r6-B: the client's read options are per read
 	emit("corpus:client-read-options", g.readOptions("m0", 2500, 1))
+	emit("corpus:empty-message", g.emptyMessage("s0", 2, 2))
+	emit("corpus:empty-message", g.emptyMessage("n0", 0, 1))
 	emit("corpus:client-drain", g.drain("m0", 7, false))
 	emit("corpus:client-drain", g.drain("m0", 12, true))
 	emit("corpus:client-drain", g.drain("m0", 0, false))
@@ -1782,6 +1813,7 @@ func c15genCases(c *h.Ctx, yield func(*h.Case)) {
 			emit("ping-while-writing", g.pingWhileWriting("b0", 5+r.Intn(3), 2048+r.Intn(3)*1024))
 			emit("client-read-options", g.readOptions("m0", 1500+r.Intn(1500), 1+r.Intn(2)))
 			emit("client-drain", g.drain("m0", r.Intn(60), r.Intn(2) == 0))
+			emit("empty-message", g.emptyMessage([]string{"s0", "n0", "c0"}[r.Intn(3)], r.Intn(4), r.Intn(4)))
 		}
 		if it%2 == 0 {
 			emit("nil-stop", g.withPings(g.nilStop("s0", r.Intn(5), 1+r.Intn(3), r.Intn(3),
